@@ -45,6 +45,15 @@ class Fresh:
     def arr_logl(self):
         return sarr([self.atom() for _ in range(N)])
 
+    def arr_nested_blobs(self):
+        """object-dtype blobs whose elements are themselves (mutable) arrays, as with blobs_dtype='object'"""
+        out = np.empty(N, dtype=object)
+        for i in range(N):
+            inner = np.empty(1, dtype=object)
+            inner[0] = self.real("blob")
+            out[i] = inner
+        return out
+
     def logz(self):
         self.k += 1
         return LogVal.of_positive(real(self.ctx, f"Z{self.k}", lo=0, lo_strict=True))
@@ -78,7 +87,14 @@ class Model:
 
     @staticmethod
     def cp(v):
-        return v.copy() if isinstance(v, np.ndarray) else v
+        if isinstance(v, np.ndarray):
+            out = v.copy()
+            if out.dtype == object:
+                for idx in np.ndindex(out.shape):
+                    if isinstance(out[idx], np.ndarray):
+                        out[idx] = Model.cp(out[idx])
+            return out
+        return v
 
     def set(self, k, v):
         self.cur[k] = self.cp(v)
@@ -106,6 +122,9 @@ def scribble(obj, fr: Fresh, depth=0):
             flat = obj.reshape(-1) if obj.flags.c_contiguous else None
             if obj.dtype == object:
                 for idx in np.ndindex(obj.shape):
+                    if isinstance(obj[idx], np.ndarray):
+                        scribble(obj[idx], fr, depth + 1)  # a blob that is itself an array: the caller writes into it before dropping it
+                for idx in np.ndindex(obj.shape):
                     obj[idx] = fr.atom() if isinstance(obj[idx], LogVal) else fr.real("scr")
             else:
                 obj[...] = -777.0
@@ -128,7 +147,8 @@ def scribble(obj, fr: Fresh, depth=0):
 
 
 OPS = ["set_u", "set_logl", "update", "commit", "get_current_key", "get_current_all", "get_history", "get_history_flat",
-       "get_history_index", "get_last", "to_dict", "export_import", "export_from_dict", "results", "set_then_scribble_input", "set_readonly_view"]
+       "get_history_index", "get_last", "to_dict", "export_import", "export_from_dict", "results", "set_then_scribble_input", "set_readonly_view",
+       "set_nested_blobs"]
 
 
 def apply_op(ctx, op, st: StateManager, model: Model, fr: Fresh, tag):
@@ -144,6 +164,15 @@ def apply_op(ctx, op, st: StateManager, model: Model, fr: Fresh, tag):
         a = fr.arr_logl()
         st.set_current("logl", a)
         model.set("logl", a)
+    elif op == "set_nested_blobs":
+        a = fr.arr_nested_blobs()
+        keep = Model.cp(a)
+        st.set_current("blobs", a)
+        model.set("blobs", keep)
+        scribble(a, fr)  # the caller keeps writing into its own containers
+        got = st.get_current("blobs")
+        expect("get_current(blobs)==state", val_eq(got, model.cur["blobs"]))
+        scribble(got, fr)
     elif op == "set_then_scribble_input":
         a = fr.arr_u()
         keep = a.copy()
@@ -274,10 +303,28 @@ def make_sequences(length):
         hist = {k: [] for k in HISTORY_STATE_KEYS}
 
         def cp(v):
-            return v.copy() if isinstance(v, np.ndarray) else v
+            if isinstance(v, np.ndarray):
+                out = v.copy()
+                if out.dtype == object:
+                    for i_ in np.ndindex(out.shape):
+                        if isinstance(out[i_], np.ndarray):
+                            out[i_] = cp(out[i_])
+                return out
+            return v
+
+        def arr_eq(a, b):
+            if not (isinstance(b, np.ndarray) and a.shape == b.shape):
+                return False
+            if a.dtype == object or b.dtype == object:
+                return all((arr_eq(p, q) if isinstance(p, np.ndarray) else (not isinstance(q, np.ndarray) and p == q)) for p, q in zip(a.reshape(-1), b.reshape(-1)))
+            return np.array_equal(a, b)
 
         def scr(o, depth=0):
             if isinstance(o, np.ndarray):
+                if o.dtype == object:
+                    for i_ in np.ndindex(o.shape):
+                        if isinstance(o[i_], np.ndarray):
+                            o[i_][...] = -777.0
                 o[...] = -777.0
             elif isinstance(o, dict):
                 for v in o.values():
@@ -292,7 +339,7 @@ def make_sequences(length):
             for k in CURRENT_STATE_KEYS:
                 a, b = cur[k], st._current[k]
                 if isinstance(a, np.ndarray):
-                    if not (isinstance(b, np.ndarray) and np.array_equal(a, b)):
+                    if not arr_eq(a, b):
                         return f"current[{k}] changed"
                 elif a != b:
                     return f"current[{k}] changed"
@@ -301,7 +348,7 @@ def make_sequences(length):
                     return f"history[{k}] length changed"
                 for i, (a, b) in enumerate(zip(hist[k], st._history[k])):
                     if isinstance(a, np.ndarray):
-                        if not (isinstance(b, np.ndarray) and np.array_equal(a, b)):
+                        if not arr_eq(a, b):
                             return f"history[{k}][{i}] changed"
                     elif a != b:
                         return f"history[{k}][{i}] changed"
@@ -318,6 +365,14 @@ def make_sequences(length):
                 a = -rng.rand(N)
                 st.set_current("logl", a)
                 cur["logl"] = a.copy()
+            elif op == "set_nested_blobs":
+                a = np.empty(N, dtype=object)
+                for i_ in range(N):
+                    a[i_] = rng.rand(1)
+                st.set_current("blobs", a)
+                cur["blobs"] = cp(a)
+                scr(a)
+                scr(st.get_current("blobs"))
             elif op == "set_readonly_view":
                 base = -rng.rand(N)
                 view = base.view()
